@@ -849,6 +849,82 @@ def webhook_busy_probe():
     return n, diffs
 
 
+def overlap_probe(facts):
+    """Two requests to one endpoint overlap (Flask serves requests from several threads): while request A - well
+    formed, accepted - is between its validation and the creation of its job, request B to the same endpoint runs
+    from start to end (B well formed with other parameters, or ill formed and refused).  The job created for A must
+    carry A's parameters and A's user, B must fare as it does alone.  The overlap is produced by re-entrancy: the
+    endpoint's own validator, once it has accepted A, issues B through another test client.
+    Returns (number of probes, [(what, A, B, expected, observed)])."""
+    import bert_e.server.api as api_pkg
+    from bert_e.server.api import base as api_base
+    out, n = [], 0
+    for host in ('bitbucket', 'github'):
+        bert_e, app = apps()[host]
+        for a in facts['api']:
+            conv = a.get('conv')
+            conv = conv[1] if isinstance(conv, (tuple, list)) else conv
+            if conv not in ('CPath', 'CInt') or not a.get('job'):
+                continue
+            view_cls = None
+            for rule in app.url_map.iter_rules():
+                if rule.rule == a['rule'] and a['method'] in rule.methods:
+                    fn = app.view_functions[rule.endpoint]
+                    while hasattr(fn, '__wrapped__'):
+                        fn = fn.__wrapped__
+                    view_cls = getattr(fn, 'view_class', None)
+            if view_cls is None or not issubclass(view_cls, api_base.APIEndpoint):
+                continue
+            good = ('development/7.4', 'stabilization/7.4.0') if conv == 'CPath' else ('7', '8')
+            bads = ('master', 'development/7.4_') if conv == 'CPath' else ('0', 'abc')
+            session = 'admin' if 'admin' in SESSIONS else sorted(SESSIONS)[-1]
+            alone = {}
+            for p in (good[1],) + bads:
+                alone[p] = impl_api(host, dict(rule=a['rule'], method=a['method'], session=session, param=p,
+                                               body=('json', '{}', 'body:object')))
+            for pb in (good[1],) + bads:
+                n += 1
+                _drain(bert_e)
+                orig = view_cls.__dict__.get('validate_endpoint_data')
+                base_validator = view_cls.validate_endpoint_data
+                state = {'fired': False, 'b': None}
+
+                def validator(*args, **kwargs):
+                    base_validator(*args, **kwargs)
+                    if not state['fired']:
+                        state['fired'] = True
+                        cb = _client(app, SESSIONS[session][0])
+                        rb = cb.open(rule_path(a['rule'], pb), method=a['method'], data='{}',
+                                     headers={'Accept': 'application/json', 'Content-Type': 'application/json'})
+                        state['b'] = rb.status_code
+                view_cls.validate_endpoint_data = staticmethod(validator)
+                try:
+                    ca = _client(app, SESSIONS[session][0])
+                    ra = ca.open(rule_path(a['rule'], good[0]), method=a['method'], data='{}',
+                                 headers={'Accept': 'application/json', 'Content-Type': 'application/json'})
+                finally:
+                    if orig is None:
+                        del view_cls.validate_endpoint_data
+                    else:
+                        view_cls.validate_endpoint_data = orig
+                jobs = _drain(bert_e)
+                key = 'branch' if conv == 'CPath' else 'pr_id'
+                got = sorted(str(j[2].get(key)) if isinstance(j[2], dict) else str(j[2]) for j in jobs)
+                want = [canon_val(good[0] if conv == 'CPath' else int(good[0]))]
+                if alone[pb][1] is not None:
+                    want.append(canon_val(pb if conv == 'CPath' else int(pb)))
+                want = sorted(str(x) for x in want)
+                inp = {'host': host, 'rule': a['rule'], 'method': a['method'], 'A': good[0], 'B_meanwhile': pb}
+                if not state['fired']:
+                    out.append(('harness: the validator of the endpoint was not reached', inp, None, want, got))
+                elif ra.status_code != 202 or state['b'] != alone[pb][0] or got != want:
+                    out.append(('overlapping requests to one endpoint', inp,
+                                {'status_A': ra.status_code, 'status_B': state['b']},
+                                {'status_A': 202, 'status_B': alone[pb][0], 'jobs': want},
+                                {'status_A': ra.status_code, 'status_B': state['b'], 'jobs': got}))
+    return n, out
+
+
 def impl_oauth(c):
     import flask
     from bert_e.server import auth
@@ -1316,6 +1392,17 @@ def run(ctx, cells=None):
         else:
             cells = [_norm(c) for c in cells]
         _run_cells(ctx, facts, known, cells)
+        # two overlapping requests to one endpoint: each job carries its own request's validated parameters
+        n, bad = overlap_probe(facts)
+        ctx.evaluations += n
+        ctx.count('overlap_probe', n)
+        for what, inp, _st, want, got in bad[:20]:
+            if what.startswith('harness'):
+                ctx.mismatch(inp, got, want, what)
+            else:
+                ctx.violation(inp, want, got, 'a job created while another request to the same endpoint was being served '
+                              'does not carry exactly the validated parameters of its own request',
+                              key=core.canon({'what': 'overlap', 'rule': inp['rule'], 'method': inp['method']}))
         # the same webhooks while the worker is busy with / has finished an equal job: nothing may change
         n, diffs = webhook_busy_probe()
         ctx.evaluations += n
